@@ -37,7 +37,10 @@ namespace rkcommon {
     FixedArrayView<T>::FixedArrayView(std::shared_ptr<FixedArray<T>> &_data,
                                       size_t offset,
                                       size_t size)
-        : data(_data)
+        // hold a copy of the FixedArray handle (copies share the storage): the
+        // viewed storage then stays alive even if the original FixedArray
+        // object is assigned new contents while this view exists
+        : data(std::make_shared<FixedArray<T>>(*_data))
     {
       AbstractArray<T>::setPtr(data->begin() + offset, size);
     }
